@@ -100,6 +100,9 @@ func runC16(c *Ctx) {
 		}
 	}
 
+	checkAccessorAgreement(c, "ck", "LastDistributionTransmissionKey", "ParametersKey")
+	checkSetterValues(c, "ck", []string{"LastTransmissionBlockHeight"})
+
 	// ---- R4 ------------------------------------------------------------------------------------
 	c.Rule("R4", "provider crediting: the middleware writes an allocation only when the transfer ack is a success and the receiver is the rewards pool; the consumer credited is the one named by the reward memo or identified from the packet's client; the credit is the stored allocation plus exactly the packet's denom/amount", 6)
 	if f := c.Fn("provider.IBCMiddleware.OnRecvPacket"); f != nil {
@@ -184,6 +187,25 @@ func runC16(c *Ctx) {
 	}
 
 	// ---- R6 ------------------------------------------------------------------------------------
+	// the allow list consulted above is the one the owner last submitted (an empty list clears it)
+	if f := c.Fn("pk.msgServer.UpdateConsumer"); f != nil {
+		if up := c.one(f, false, "pk.Keeper.UpdateAllowlistedRewardDenoms"); up != nil {
+			c.RequestProcessed(f, "AllowlistedRewardDenoms", fk(f, "allowlist-request-is-processed"), up)
+			c.Check(PField(PParam("msg"), "ConsumerId")(arg(up, 1)) && PField(PField(PParam("msg"), "AllowlistedRewardDenoms"), "Denoms")(arg(up, 2)), fk(f, "allowlist-request-content"), up,
+				"replaces the list of msg.ConsumerId with msg.AllowlistedRewardDenoms.Denoms; found "+describe(arg(up, 1))+", "+describe(arg(up, 2)))
+		}
+	}
+	if f := c.Fn("pk.Keeper.UpdateAllowlistedRewardDenoms"); f != nil {
+		del := c.one(f, false, "pk.Keeper.DeleteAllowlistedRewardDenoms")
+		set := c.one(f, false, "pk.Keeper.SetAllowlistedRewardDenoms")
+		if del != nil && set != nil {
+			c.Check(PParam("consumerId")(arg(del, 1)) && PParam("consumerId")(arg(set, 1)) && PParam("rewardDenoms")(arg(set, 2)), fk(f, "replaces"), set, "deletes the old list and stores the new one for the same consumer")
+			for _, r := range successReturns(f) {
+				c.Check(mustPassBefore(r, set), fk(f, "always-stores"), r, "a success return passes SetAllowlistedRewardDenoms")
+			}
+		}
+	}
+
 	c.Rule("R6", "AllocateConsumerRewards: the coins moved to the distribution account are exactly the coins handed to AllocateTokensToConsumerValidators; the community part is funded from the rewards pool account; the returned remainder is the truncation changes", 5)
 	if f := c.Fn("pk.Keeper.AllocateConsumerRewards"); f != nil {
 		send := c.one(f, false, "ccv.BankKeeper.SendCoinsFromModuleToModule")
@@ -266,6 +288,10 @@ func runC16(c *Ctx) {
 	}
 
 	// ---- R8 ------------------------------------------------------------------------------------
+	// the eligibility clock travels with the record: between CreateConsumerValidator (which sets
+	// JoinHeight) and the stored set, power shaping may only copy whole records and change Power
+	c.OnlyBuiltBy("pt.ConsensusValidator", []string{"pk.Keeper.CreateConsumerValidator", "pk.Keeper.CreateProviderConsensusValidator"}, []string{"Power"}, 2)
+
 	c.Rule("R8", "per-consumer commission: the rate applied is GetConsumerCommissionRate(same consumer, same validator) when set; HandleSetConsumerCommissionRate writes only for an active consumer and not below staking's minimum", 4)
 	if f := c.Fn("pk.Keeper.AllocateTokensToConsumerValidators"); f != nil {
 		val := PElemOf(PCall("pk.Keeper.GetConsumerValSet", 0, nil, nil, PParam("consumerId")))
